@@ -217,6 +217,22 @@ class DiameterAssociation(object):
             self.lock.release()
 
 
+    def has_unread_messages(self) -> bool:
+        """Tells whether something the peer has sent is still on its way to
+        the state machine: messages decoded but not consumed yet, or bytes
+        received that the receive worker has not picked up yet (the worker
+        decodes and queues under the association lock).
+        """
+        self.lock.acquire()
+
+        transport = self.transport
+        unread = (not self._recv_messages.empty()) or \
+                 bool(transport and transport._recv_data_available.is_set())
+
+        self.lock.release()
+        return unread
+
+
     def put_message_into_send_queue(self, msg: Type[DiameterMessage]) -> None:
         self.lock.acquire()
 
@@ -345,8 +361,16 @@ class DiameterAssociation(object):
 
 
     def get_message(self) -> Type[DiameterMessage]:
-        while not self._stop_threads:
+        while True:
+            #: Read before looking at the queue: whatever is handed over is
+            #: queued before the connection ends, so an empty queue seen
+            #: afterwards means that everything has been returned.
+            stopped = self._stop_threads
+
             if self.postprocess_recv_messages.empty():
+                if stopped:
+                    return None
+
                 self.postprocess_recv_messages_ready.wait()
                 diameter_conn_logger.debug("Got go ahead for "\
                                            "postprocess_recv_messages_ready")
